@@ -81,10 +81,33 @@ func (e *SpecEnv) Tr(x ast.Expr) (t T, err error) {
 }
 
 func (e *SpecEnv) TrBool(x ast.Expr) (T, error) {
+	if e.goal {
+		// a goal that is a single atom over a ghost which does not exist on this path is false, like the same atom
+		// under a connective (boolOrStronger): the clause speaks about a call that was never made
+		return e.trGoalTop(x)
+	}
 	t, err := e.Tr(x)
 	if err != nil {
 		return t, err
 	}
+	if t.Sort != SBool {
+		return t, fmt.Errorf("expected Bool, got %s in %s", t.Sort, exprString(x))
+	}
+	return t, nil
+}
+
+func (e *SpecEnv) trGoalTop(x ast.Expr) (t T, err error) {
+	defer func() {
+		if r := recover(); r != nil {
+			if se, ok := r.(specErr); ok {
+				err = se
+				return
+			}
+			panic(r)
+		}
+	}()
+	t = e.boolOrStronger(x)
+	e.cur.FlushSide()
 	if t.Sort != SBool {
 		return t, fmt.Errorf("expected Bool, got %s in %s", t.Sort, exprString(x))
 	}
@@ -584,6 +607,8 @@ func (e *SpecEnv) call(x *ast.CallExpr) T {
 		case SBytes:
 			return App(SInt, "blen", a)
 		case SSlice:
+			// type invariant of every Go slice value, also of one read from the heap inside a specification
+			e.ex.side = append(e.ex.side, App(SBool, ">=", App(SInt, "slen", a), IntLit(0)))
 			return App(SInt, "slen", a)
 		}
 		sfail("len() of sort %s", a.Sort)
